@@ -33,7 +33,7 @@ import (
 
 type panicSite struct {
 	Func    string `json:"func"`    // enclosing function or method
-	Ordinal int    `json:"ordinal"` // index among the panic sites of that function
+	Ordinal int    `json:"ordinal"` // index among the panic sites of that function with the same argument text
 	Arg     string `json:"arg"`     // normalised argument text
 	Class   string `json:"class"`
 	pos     token.Position
@@ -214,8 +214,17 @@ func collectPanicSites(p *packages.Package) []panicSite {
 				if _, isBuiltin := p.TypesInfo.Uses[id].(*types.Builtin); !isBuiltin {
 					return true
 				}
+				// the ordinal counts the earlier sites of the same function with the SAME argument text, so
+				// that inserting or removing an unrelated site does not renumber the others
+				arg := normArg(p.Fset, call.Args[0])
+				dup := 0
+				for _, o := range out {
+					if o.Func == name && o.Arg == arg {
+						dup++
+					}
+				}
 				out = append(out, panicSite{
-					Func: name, Ordinal: ord, Arg: normArg(p.Fset, call.Args[0]),
+					Func: name, Ordinal: dup, Arg: arg,
 					Class: classifyPanicArg(p, call.Args[0], rec), pos: p.Fset.Position(call.Pos()),
 				})
 				ord++
